@@ -296,21 +296,12 @@ def r53(ctx):
             got = sorted({x[3] for x in subexprs(e) if x[0] == "field" and x[2].endswith("monitor::State") and x[3].endswith("_height")})
             ctx.ob("R5.3", got == sorted(srcs), f"{ab.name}/{fld}/source", f"{fld} is derived from {got} (expected {srcs})",
                    where=f"{ab.file}:{st.line}", sample=f"{fld} <- {srcs}")
-            forms = set()
-            for x in subexprs(e):
-                if x[0] == "closure":
-                    cd = [d for d in p.by_name.get(x[1], []) if d.id in p.bodies]
-                    for d in cd:
-                        cvw = fnview(ctx, p.bodies[d.id], policy=False)
-                        env = R.closure_env(ctx, ab, d)
-                        for r in cvw.return_sites():
-                            if "stmt" in r and r["stmt"].rv.ops:
-                                forms.add(render(R.subst_captures(cvw.expr(r["stmt"].rv.ops[0]), env)))
-                            elif "call" in r:
-                                forms.add(render(R.subst_captures(cvw._call_expr(r["call"], 0), env)))
-            ok = len(forms) == 1 and all(f.endswith(".height + 1) - h)") or f.endswith("height + 1) - h)") for f in forms)
-            ctx.ob("R5.3", ok, f"{ab.name}/{fld}/formula",
-                   f"{fld} is computed as {sorted(forms)} (expected height + 1 - event height): an event in the tip block would have "
+            df = _depth_form(ctx, ab, av, e, None, 0)
+            okf = df is not None and render(df[0]).endswith(".height") and \
+                sorted({x[3] for x in subexprs(df[1]) if x[0] == "field" and x[3].endswith("_height")}) == sorted(srcs)
+            ctx.ob("R5.3", okf, f"{ab.name}/{fld}/formula",
+                   f"{fld} is computed as `{render(e)[:160]}`, which is not one of the accepted forms of height + 1 - event height "
+                   f"(0 when unseen) over {srcs}: an event in the tip block would have "
                    f"depth 0 and the on-chain guard (`closing_depth > 0`, `funding_depth < min`) misses it for one block",
                    where=f"{ab.file}:{st.line}", sample="height + 1 - h")
     ctx.floor("R5.3", "ChainState literal in as_chain_state", nlit, 1)
@@ -431,3 +422,79 @@ def r55(ctx):
             continue    # on-chain spends: C08 R8.5
         n += R.bound_comparisons_untruncated(ctx, "R5.5", b, lambda s: "SimplePolicy." in s or "policy." in s, b.name)
     ctx.floor("R5.5", "integer comparisons with a policy bound", n, 10)
+
+
+# ------------------------------------------------------------------ depth idioms
+def _plus_one(e):
+    """H + 1 -> H"""
+    e = strip_ref(e)
+    if e[0] == "ovf":
+        e = e[1]
+    if e[0] == "+" and strip_ref(e[2]) == ("int", 1):
+        return strip_ref(e[1])
+    if e[0] == "+" and strip_ref(e[1]) == ("int", 1):
+        return strip_ref(e[2])
+    return None
+
+
+def _depth_form(ctx, body, fv, e, env, depth):
+    """canonical form of a depth computation: returns (H, source option expression) when `e` is one of the accepted
+    idioms of `source.map(|h| H + 1 - h).unwrap_or(0)`:
+      A  Option::unwrap_or(Option::map(src, |h| (H + 1) - h), 0)
+      B  (H + 1) -sat Option::unwrap_or(src, H + 1)                      (plain `-` accepted too)
+      C  a call of a function of this crate whose returned expression has form A or B over its own parameters"""
+    p = ctx.prog
+    e = strip_ref(e)
+    if depth > 3:
+        return None
+    if e[0] == "call" and e[1].endswith("Option::<T>::unwrap_or") and len(e[2]) == 2 and strip_ref(e[2][1]) == ("int", 0):
+        m = strip_ref(e[2][0])
+        if m[0] == "call" and m[1].endswith("Option::<T>::map") and len(m[2]) == 2 and m[2][1][0] == "closure":
+            src, clo = m[2][0], m[2][1]
+            cds = [d for d in p.by_name.get(clo[1], []) if d.id in p.bodies]
+            if len(cds) != 1:
+                return None
+            cb = p.bodies[cds[0].id]
+            cv = fnview(ctx, cb, policy=False)
+            cenv = R.closure_env(ctx, body, cds[0])
+            r = strip_ref(R.subst_captures(cv.local_expr(0), cenv))
+            if r[0] == "ovf":
+                r = r[1]
+            if r[0] in ("-", "sat-"):
+                H = _plus_one(r[1])
+                h = strip_ref(r[2])
+                if H is not None and h[0] == "param":
+                    if env:
+                        H = R.subst_captures(H, env)
+                    return H, src
+        return None
+    if e[0] in ("-", "sat-"):
+        H = _plus_one(e[1])
+        u = strip_ref(e[2])
+        if H is not None and u[0] == "call" and u[1].endswith("Option::<T>::unwrap_or") and len(u[2]) == 2 \
+           and _plus_one(u[2][1]) == H:
+            return H, u[2][0]
+        return None
+    if e[0] == "call" and len([d for d in p.by_name.get(e[1], []) if d.id in p.bodies]) == 1:
+        cal = p.bodies[[d for d in p.by_name.get(e[1], []) if d.id in p.bodies][0].id]
+        if cal.d.krate != body.d.krate or R.is_test_util(cal.name):
+            return None
+        cv = fnview(ctx, cal, policy=False)
+        inner = _depth_form(ctx, cal, cv, cv.local_expr(0), None, depth + 1)
+        if inner is None:
+            return None
+        # substitute the callee's parameters by the actual arguments
+        sub = {}
+        for i, a in enumerate(e[2]):
+            nm = cal.local_name(i + 1)
+            if nm:
+                sub[nm] = strip_ref(a)
+
+        def subst(x):
+            if isinstance(x, tuple):
+                if x and x[0] == "param" and x[1] in sub:
+                    return sub[x[1]]
+                return tuple(subst(y) for y in x)
+            return x
+        return subst(inner[0]), subst(inner[1])
+    return None
